@@ -98,6 +98,22 @@ def _run_case(spec):
             chain = rng.choice(['miscleavage', 'min_length', 'max_length', 'min_mw'])
             vals = {'miscleavage': [0, 1, 2, 3], 'min_length': [9, 7, 5], 'max_length': [15, 25, 40],
                     'min_mw': [800., 500., 0.]}[chain]
+            if chain != 'miscleavage' and rng.random() < 0.6:
+                # boundary chain: the limit values are taken from a peptide of the most permissive output, so that peptides lie
+                # EXACTLY on the limit (length == max / min length, mass just above / below the minimum mass)
+                loose = out_of(case, wd, paths, f'{chain}probe', cfg={chain: vals[-1]})
+                cand = sorted(loose)
+                if cand:
+                    p0 = rng.choice(cand)
+                    if chain == 'max_length' and 8 <= len(p0) <= 39:
+                        vals = [len(p0) - 1, len(p0), 40]
+                    elif chain == 'min_length' and 6 <= len(p0) <= 12:
+                        vals = [len(p0) + 1, len(p0), 5]
+                    elif chain == 'min_mw':
+                        m0 = dg.mass(p0)
+                        if m0 > 300:
+                            vals = [round(m0 + 0.5, 3), round(m0 - 0.5, 3), 0.]
+                    counters['boundary_chains'] = 1
             outs = []
             for v in vals:
                 outs.append((v, out_of(case, wd, paths, f'{chain}{v}', cfg={chain: v})))
@@ -209,12 +225,13 @@ def check(rep, tier, seed, specs=None, n_override=None):
             specs.append({'kind': kind, 'stratum': st, 'seed': common.hash64('c05', 'fixed' if i < n // 2 else seed, i)})
     results, lost = common.shard_run('c05', specs, timeout_s=1800 if quick else 6 * 3600)
     rep.rule = ('paired callVariant executions on one generated input: chains miscleavage 0-1-2-3, min-length 9-7-5, max-length 15-25-40, '
-                'min-mw 800-500-0 (added peptides must violate the stricter limit by a sequence-level predicate); SECT / W2F / coding-novel-ORF '
+                'min-mw 800-500-0, or boundary chains whose values are the length / mass of a peptide of the most permissive output (added peptides must '
+                'violate the stricter limit by a sequence-level predicate); SECT / W2F / coding-novel-ORF '
                 'off->on (every entry of an added peptide must carry the SECT- / W2F- / ORF identifier); record sets S vs S+{r} and file sets F vs '
                 'F+{f} (context-free cleavage rule; for enumerable inputs an added peptide must not have been demanded without r; dense 6-12 record '
                 'clusters with limits disabled are compared by strict inclusion only); restrictive switches noncanonical-transcripts and '
                 'backsplicing-only give subsets. non-trivial = pair evaluated; distinct = (kind, option, stratum, rule, ...).')
     rep.absorb(results, lost)
-    for k in ('pairs', 'added_peptides', 'strict_pairs'):
+    for k in ('pairs', 'added_peptides', 'strict_pairs', 'boundary_chains'):
         if not rep.counters.get(k):
             rep.inconclusive.append(f'monitor {k} had zero evaluations')
